@@ -67,7 +67,8 @@ def shadow_of_func(ctx: Ctx) -> Func:
     """Ace.shadow_of after the behaviour-preserving rewrites of rules/normalise.py (ladder of early returns)."""
     from .normalise import normalised
 
-    return normalised(ctx, ctx.func("Ace.shadow_of"))
+    # the per-field helpers stay calls here (R03.1 reads which fields each call covers): no tail-call inlining
+    return normalised(ctx, ctx.func("Ace.shadow_of"), "delegation,calls,unroll,quant,beta,getattr,temps,predicate")
 
 
 def helper_for_field(ctx: Ctx, rep: Report, field: str) -> Optional[Func]:
